@@ -71,6 +71,12 @@ def gen(rng, tier):
     # first arguments in queries and retracts); clear() - API or Python predicate - while queries and retracts are suspended
     extra = [D.gen_big_history(rng) for i in range(40 if tier == 'quick' else 500)]
     extra += [D.gen_clear_history(rng) for i in range(40 if tier == 'quick' else 600)]
+    if tier != 'quick':
+        # thresholds beyond 64 facts (thorough tier only: the printed read-backs are large)
+        big = [D.gen_big_history(rng, sizes=[100, 127, 128, 129, 200, 255, 256, 257]) for i in range(40)]
+        for c in big:
+            c['kind'] = 'events'
+        extra += big
     extra += [D.gen_dbprog_grown(rng, loopy=0.5) for i in range(30 if tier == 'quick' else 500)]
     return D.spread(cases, extra)
 
